@@ -250,7 +250,12 @@ func TestVerif_C10(t *testing.T) {
 	mk := func(o c10Opts, b, bt int) bScenario {
 		return bScenario{Name: o.name, Bound: b, BoundT: bt, Body: c10Body(o)}
 	}
-	runBScenarios(t, "C10", []bScenario{
+	w := newWorker(t, "C10")
+	defer w.finish()
+	if runHistories(w, "C10", 5, 6) {
+		return
+	}
+	runBScenariosW(w, "C10", []bScenario{
 		mk(c10Opts{name: "client-close-sync", clientCloses: true}, 2, 3),
 		mk(c10Opts{name: "both-close-at-once", clientCloses: true, serverCloses: true}, 2, 3),
 		mk(c10Opts{name: "double-close-concurrent", clientCloses: true, doubleClose: true}, 1, 2),
